@@ -11,6 +11,115 @@ Z3_TIMEOUT_MS = int(os.environ.get("VERIF_Z3_TIMEOUT_MS", "20000"))
 CVC5_TIMEOUT_S = int(os.environ.get("VERIF_CVC5_TIMEOUT_S", "30"))
 
 
+SCOPE = int(os.environ.get("VERIF_SCOPE", "12"))
+
+
+def _expand(e, pos, z3, S):
+    """polarity-aware bounded expansion of universally-acting quantifiers (small-scope refutation mode).
+    Returns None when a quantifier has a shape that cannot be expanded."""
+    if z3.is_quantifier(e):
+        univ = e.is_forall() == pos  # acts as a universal in this polarity
+        if not univ:
+            return e  # existential in effect: the solver skolemises it
+        if e.num_vars() != 1 or not z3.is_int(z3.Const("x", e.var_sort(0))):
+            return None
+        body = e.body()
+        k = z3.Int(f"ssk!{e.get_id()}")
+        body = z3.substitute_vars(body, k)
+        guard = None
+        if e.is_forall() and z3.is_implies(body):
+            guard, inner = body.arg(0), body.arg(1)
+        elif (not e.is_forall()) and z3.is_and(body):
+            guard, inner = body.arg(0), z3.And(*body.children()[1:]) if body.num_args() > 2 else body.arg(1)
+        else:
+            return None
+        # guard must be  lo <= k  and  k < hi   (possibly nested Ands)
+        los, his = [], []
+
+        def scan(g):
+            if z3.is_and(g):
+                for c in g.children():
+                    scan(c)
+                return True
+            if z3.is_le(g) and g.arg(1).eq(k):
+                los.append(g.arg(0)); return True
+            if z3.is_ge(g) and g.arg(0).eq(k):
+                los.append(g.arg(1)); return True
+            if z3.is_lt(g) and g.arg(0).eq(k):
+                his.append(g.arg(1)); return True
+            if z3.is_gt(g) and g.arg(1).eq(k):
+                his.append(g.arg(0)); return True
+            if z3.is_not(g):
+                h = g.arg(0)
+                if z3.is_le(h) and h.arg(0).eq(k):   # not (k <= a)  == k > a : lower bound a+1
+                    los.append(h.arg(1) + 1); return True
+                if z3.is_le(h) and h.arg(1).eq(k):   # not (a <= k) == k < a
+                    his.append(h.arg(0)); return True
+                if z3.is_ge(h) and h.arg(0).eq(k):   # not (k >= a) == k < a
+                    his.append(h.arg(1)); return True
+            return True  # other guard conjuncts stay part of the guard
+
+        scan(guard)
+        if not los or not his:
+            return None
+        inner2 = _expand(inner, pos if e.is_forall() else pos, z3, S)
+        if inner2 is None:
+            return None
+        lo, hi = los[0], his[0]
+        inscope = z3.Or(hi <= lo, z3.And(lo >= -2, hi <= S + 1))
+        insts = []
+        for c in range(-2, S + 1):
+            g_c = z3.substitute(guard, (k, z3.IntVal(c)))
+            b_c = z3.substitute(inner2, (k, z3.IntVal(c)))
+            insts.append(z3.Implies(g_c, b_c) if e.is_forall() else z3.And(g_c, b_c))
+        if e.is_forall():   # positive forall
+            return z3.And(inscope, *insts)
+        # negative exists  (not exists k. g and b)  appears as the exists node in negative polarity:
+        return z3.And(z3.Not(z3.Not(inscope)) if False else inscope, z3.Or(*insts)) if False else z3.Or(z3.Not(inscope), *insts)
+    if z3.is_not(e):
+        c = _expand(e.arg(0), not pos, z3, S)
+        return None if c is None else z3.Not(c)
+    if z3.is_and(e) or z3.is_or(e):
+        cs = [_expand(c, pos, z3, S) for c in e.children()]
+        if any(c is None for c in cs):
+            return None
+        return z3.And(*cs) if z3.is_and(e) else z3.Or(*cs)
+    if z3.is_implies(e):
+        a = _expand(e.arg(0), not pos, z3, S)
+        b = _expand(e.arg(1), pos, z3, S)
+        return None if a is None or b is None else z3.Implies(a, b)
+    if z3.is_app(e) and e.num_args() and z3.is_bool(e):
+        # ite / iff / other boolean structure containing quantifiers: only safe when no quantifier inside
+        from .engine import has_quant
+        if has_quant(e):
+            return None
+    return e
+
+
+def small_scope(smt2, timeout_ms=10000):
+    """Refutation mode (DESIGN 2.2): add the small-scope hypothesis and expand the universal quantifiers over it.
+    'sat' is a genuine model of the original query (a small instance); anything else proves nothing."""
+    import z3
+
+    s0 = z3.Solver()
+    s0.from_string(smt2)
+    out = []
+    for a in s0.assertions():
+        x = _expand(a, True, z3, SCOPE)
+        if x is None:
+            return "unknown", ""
+        out.append(x)
+    s = z3.Solver()
+    s.set("timeout", timeout_ms)
+    s.add(*out)
+    r = s.check()
+    if r == z3.sat:
+        m = s.model()
+        model = "; ".join(f"{d.name()}={m[d]}" for d in sorted(m.decls(), key=lambda d: d.name()) if not d.name().startswith("ssk!"))[:6000]
+        return "sat", model
+    return ("unsat-in-scope" if r == z3.unsat else "unknown"), ""
+
+
 def solve_one(job):
     """job = (key, smt2 text). returns (key, verdict, solver, seconds, model)"""
     key, smt2 = job
@@ -18,10 +127,22 @@ def solve_one(job):
 
     t0 = time.time()
     s = z3.Solver()
-    s.set("timeout", Z3_TIMEOUT_MS)
+    s.set("timeout", min(3000, Z3_TIMEOUT_MS))
     try:
         s.from_string(smt2)
         r = s.check()
+        if r == z3.unknown:
+            # refutation mode first (fast on genuine counterexamples), then the full budget
+            try:
+                rr, model = small_scope(smt2)
+            except z3.Z3Exception:
+                rr, model = "unknown", ""
+            if rr == "sat":
+                return key, "sat", "z3-smallscope", time.time() - t0, model
+            s = z3.Solver()
+            s.set("timeout", Z3_TIMEOUT_MS)
+            s.from_string(smt2)
+            r = s.check()
     except z3.Z3Exception as e:  # pragma: no cover
         return key, "error", "z3", time.time() - t0, str(e)
     if r == z3.unsat:
